@@ -60,6 +60,7 @@ def gen_program(rnd, nsym):
     return prog
 
 
+UNSIZED_CONSTANTS = True
 rnd_upcast64_off = False  # upcast(float64) -> float128 (numpy.longdouble) is printable and is judged; upcast(complex128) is refused by the printer
 
 
@@ -78,6 +79,8 @@ def build(ctx, prog, syms):
                     v = 2.0
                 if isinstance(v, (bool, numpy.bool_)):
                     e = ctx.constant(1.0, like)
+                elif UNSIZED_CONSTANTS and isinstance(v, (int, float)) and not isinstance(v, bool) and (st[2] % 9 == 4):
+                    e = ctx.constant(v)  # no like-operand: typed by the context's unsized float / integer (KF-C08-unsized-constant)
                 else:
                     e = ctx.constant(v, like)
             elif op == "un":
